@@ -298,7 +298,7 @@ func TestVerifC08Pairs(t *testing.T) {
 	}
 	probes := []*topology.FunctionTopology{anchor,
 		mk(func(c *topology.FunctionTopology) { c.InstrCount = 13 }),                       // same fuzzy bucket, other exact hash
-		mk(func(c *topology.FunctionTopology) { c.InstrCount = 13; c.EntropyScore = 7.7 }), // entropy near
+		mk(func(c *topology.FunctionTopology) { c.InstrCount = 13; c.EntropyScore = 7.2 }), // entropy near (7.5) / outside the window (8)
 		mk(func(c *topology.FunctionTopology) {
 			c.CallSignatures = map[string]int{"fmt.Println": 1}
 			c.StringLiterals = nil
@@ -307,7 +307,8 @@ func TestVerifC08Pairs(t *testing.T) {
 	th := detection.GenerateTopologyHash(anchor)
 	fh := anchor.FuzzyHash
 	var pool []detection.Signature
-	for _, e := range []float64{8, 7.6} {
+	// 7.5: exactly ON the edge of the tolerance window (0.5) of the probes with entropy 8
+	for _, e := range []float64{8, 7.5} {
 		for ri, req := range [][]string{nil, {"syscall.Ptrace"}} {
 			for pi, pat := range [][]string{nil, {"/bin/sh"}, {"/bin/sh", "zzz-absent"}} {
 				for si, shape := range [][2]int{{4, 2}, {8, 1}} {
